@@ -194,6 +194,31 @@ func TestC11(t *testing.T) {
 			p.Render()
 			ev.Class(id, "program with @ignore comments for one token in several files")
 		}
+		// generated-code style: a /*line*/ directive in one package that points into a source
+		// file of another package - what is shown for such a diagnostic must not depend on
+		// which other packages happen to be analysed in the same process
+		if len(p.Pkgs) >= 2 && rapid.IntRange(0, 9).Draw(rt, "lineDirective") < 3 {
+			qi := rapid.IntRange(1, len(p.Pkgs)-1).Draw(rt, "linePkg")
+			q, tgt := p.Pkgs[qi], p.Pkgs[rapid.IntRange(0, qi-1).Draw(rt, "lineTarget")]
+			var fns []*proggen.FuncDecl
+			for _, f := range q.Files {
+				if f.Kind != proggen.FileRegular {
+					continue
+				}
+				for _, d := range f.Decls {
+					if fd, ok := d.(*proggen.FuncDecl); ok && len(fd.Body) > 0 {
+						fns = append(fns, fd)
+					}
+				}
+			}
+			if len(fns) > 0 && len(tgt.Files) > 0 {
+				fd := fns[rapid.IntRange(0, len(fns)-1).Draw(rt, "lineFunc")]
+				rel := strings.Repeat("../", strings.Count(q.Dir, "/")+1) + tgt.Dir + "/" + tgt.Files[0].Name
+				fd.Body = append([]proggen.Stmt{&proggen.Filler{Text: fmt.Sprintf("/*line %s:%d*/", rel, rapid.IntRange(1, 12).Draw(rt, "lineNo"))}}, fd.Body...)
+				p.Render()
+				ev.Class(id, "program with a /*line*/ directive into a file of another package")
+			}
+		}
 		seq := loadOrBug(rt, id, p, cfg)
 		src := p.Sources()
 		ev.Eval(id)
